@@ -59,7 +59,8 @@ var c08MapMenu = []string{"", "enum:map $PSx $PTx", "enum:map $PSx @ignore", "en
 
 var c08UnknownMenu = []string{"", "@error", "@panic", "@ignore", "$PA", "$PNope", "@bad"}
 
-var c08Positions = []string{"top", "field", "slice", "mapval", "mapkey"}
+// sametype / sametype-field: the enum type converted to itself (members map to themselves, everything else follows enum:unknown)
+var c08Positions = []string{"top", "field", "slice", "mapval", "mapkey", "sametype", "sametype-field"}
 
 func buildC08(id string, un enumUnder, ms memberSet, mapLine, unknown, unknownLevel, enumSwitch, pos string, withErr bool) *Scenario {
 	sc := &Scenario{ID: "E" + id, PropGen: "C08", PropVal: "C08", Test: "Convert", Funcs: map[string]string{},
@@ -125,7 +126,18 @@ func buildC08(id string, un enumUnder, ms memberSet, mapLine, unknown, unknownLe
 		conv.Methods = append(conv.Methods, mm)
 		sc.Methods = append(sc.Methods, &ScMethod{Name: name, Params: "source " + s.Go("conv"), Result: res(t), Lines: lines, M: mm})
 	}
+	if strings.HasPrefix(pos, "sametype") {
+		// only the source enum exists; its members are their own targets
+		sc.Decls = []*space.Decl{se}
+		tE = sE
+		sc.Desc["class"] = fmt.Sprintf("under=%s members=%s pos=%s", un.name, ms.name, pos)
+	}
 	switch pos {
+	case "sametype":
+		add("Convert", sE, sE, enumLines)
+	case "sametype-field":
+		add("Convert", space.St(f("F", sE), f("Z", tInt)), space.St(f("F", sE), f("Z", tInt)), nil)
+		add("Enum", sE, sE, enumLines)
 	case "top":
 		add("Convert", sE, tE, enumLines)
 	case "field":
